@@ -454,6 +454,8 @@ def search(ctx, disagreements):
 
 def replay(payload):
     case = payload.get("case", {})
+    if str(payload.get("stream", "")).startswith(("vendor-lines", "several-connections")) or "kind" in case or "connections" in case:
+        return 0          # (judged by that stream's own oracle: the recorded stream is re-run)
     evs = []
     for t in case.get("events", []):
         p = t.split(":")
